@@ -280,9 +280,12 @@ def _stmt(p):
                 if not p.accept("op", ","):
                     break
         limit = None
+        offset = None
         if p.kw("LIMIT"):
             limit = p.expr()
-        return {"kind": "select", "items": items, "table": table, "where": where, "group": group, "order": order, "limit": limit}
+            if p.kw("OFFSET") or p.accept("op", ","):
+                offset = p.expr()
+        return {"kind": "select", "items": items, "table": table, "where": where, "group": group, "order": order, "limit": limit, "offset": offset}
     if p.kw("INSERT") or p.peek() == ("kw", "REPLACE"):
         conflict = "ABORT"
         if p.kw("REPLACE"):
